@@ -33,6 +33,14 @@ func scenUIMain(r *Run, racing bool) {
 	} else {
 		startCmd, startArg = "open", g.openTarget()
 	}
+	if t.Chance(1, 8) {
+		// started with a handle whose webfinger endpoint answers with a hostile status line: main.go
+		// prints a failed start-up command itself, after it has put the terminal back into cooked mode
+		startCmd, startArg = "open", "@evil@h1.example"
+		tn.f.ServeRaw("https://h1.example/.well-known/webfinger?resource=acct%3Aevil%40h1.example",
+			HTTPResponse(hostileStatus[t.Draw(len(hostileStatus))], []string{"Content-Type: application/jrd+json"}, "{}", "\r\n"))
+		r.S.Probe("main_started_with_handle_on_hostile_webfinger")
+	}
 	hookMode := t.Weighted(6, 2, 1, 1, 1)
 	m := newMainSession(r, w0, h0, startCmd, startArg)
 	m.racing = racing
